@@ -99,6 +99,14 @@ pub struct Case {
     /// shuffle_two only: the SAME slice is passed as both arrays
     #[serde(default)]
     pub alias: bool,
+    /// shuffle_two only: 2 = the two arrays are overlapping windows of one buffer (&s[..n], &s[k..n+k]);
+    /// 3 = the second array is a separate copy of the first that differs only in the sign of its zeros
+    #[serde(default)]
+    pub alias_mode: u8,
+    /// the earlier same-buffer calls read the main data in reversed order (same values, same address
+    /// and length, other arrangement); their results are not judged
+    #[serde(default)]
+    pub pre_perm: bool,
 }
 
 /// structure-only check of one call on plain distinct data (used for the earlier calls of a run)
@@ -328,6 +336,8 @@ impl Prop for C19 {
                 pre_prefix: if run % 6 == 2 { n / 2 } else { 0 },
                 pre_du: vec![],
                 alias: false,
+                alias_mode: 0,
+                pre_perm: false,
             };
         }
         let _ = tier;
@@ -348,6 +358,8 @@ impl Prop for C19 {
                 pre_prefix: 0,
                 pre_du: vec![],
                 alias: false,
+                alias_mode: 0,
+                pre_perm: false,
             };
         }
         let func = *r.pick(&[
@@ -372,7 +384,14 @@ impl Prop for C19 {
         let n_boot = if r.chance(0.5) { r.usize(40, 200) } else { r.usize(1, 39) };
         // keep a single run bounded: n * n_boot <= 120k draws
         let n_boot = if pow2 { (1usize << r.below(8)).max(1) } else { n_boot };
-        let n_boot = n_boot.min((120_000 / n).max(1));
+        // (power-of-two geometry may reach n * n_boot = 2^17, the largest such product in the domain)
+        let n_boot = n_boot.min(((if pow2 { 140_000 } else { 120_000 }) / n).max(1));
+        let (n, n_boot, data) = if pow2 && mode != "special_distinct" && r.chance(0.15) {
+            let nb = *r.pick(&[64usize, 128]);
+            (1024, nb, gen_data(&mut r, 1024, mode))
+        } else {
+            (n, n_boot, data)
+        };
         let seeding = Seeding::gen(&mut r);
         let mut script = vec![];
         if r.chance(0.35) {
@@ -439,7 +458,9 @@ impl Prop for C19 {
             vec![]
         };
         let alias = func == Func::ShuffleTwo && r.chance(0.12);
-        Case { func, data: fbs(&data), mode: mode.into(), n_boot, seeding, script, repeat, pre, pre_same, pre_prefix, pre_du, alias }
+        let alias_mode = if func == Func::ShuffleTwo && !alias && r.chance(0.2) { 2 + r.below(2) as u8 } else { 0 };
+        let pre_perm = pre_same > 0 && r.chance(0.4);
+        Case { func, data: fbs(&data), mode: mode.into(), n_boot, seeding, script, repeat, pre, pre_same, pre_prefix, pre_du, alias, alias_mode, pre_perm }
     }
 
     fn exec(case: &Case, st: &mut Stats) -> Option<Viol> {
@@ -450,10 +471,27 @@ impl Prop for C19 {
         let mut same_verdict: Option<Viol> = None;
         if case.pre_same > 0 {
             case.seeding.apply();
-            data.extend((0..n).map(|i| i as f64 + 0.25));
+            if case.pre_perm {
+                data.extend(case.data.iter().rev().map(|x| x.0));
+            } else {
+                data.extend((0..n).map(|i| i as f64 + 0.25));
+            }
             let upto = if case.pre_prefix > 0 && case.pre_prefix < n { case.pre_prefix } else { n };
             for _ in 0..case.pre_same {
                 st.inc("earlier_calls_on_same_buffer");
+                if case.pre_perm {
+                    // environment only: the same values in another arrangement at this address
+                    st.inc("earlier_calls_same_values_other_order");
+                    alea::sim::set_budget(100_000 + 64 * n as u64);
+                    let _ = match case.func {
+                        Func::Bootstrap => catch(|| bootstrap(&data[..upto], 2).len()),
+                        Func::Jackknife => catch(|| jackknife(&data[..upto]).len()),
+                        Func::Shuffle => catch(|| shuffle(&data[..upto]).len()),
+                        Func::ShuffleTwo => catch(|| shuffle_two(&data[..upto], &data[..upto]).0.len()),
+                    };
+                    alea::sim::clear_budget();
+                    continue;
+                }
                 if let Some((check, class, detail)) = structural_on(case.func, &data[..upto]) {
                     same_verdict = Some(Viol::new(check, class, detail).k("func", format!("{:?}", case.func)).k("len", "earlier_call"));
                     break;
@@ -483,7 +521,10 @@ impl Prop for C19 {
                     Func::Bootstrap => catch(|| bootstrap(&[], 2).len()),
                     Func::Jackknife => catch(|| jackknife(&[]).len()),
                     Func::Shuffle => catch(|| shuffle(&[]).len()),
-                    Func::ShuffleTwo => catch(|| shuffle_two(&[], &[]).0.len()),
+                    Func::ShuffleTwo => {
+                        let _ = catch(|| shuffle_two(&[], &[]).0.len());
+                        catch(|| shuffle_two(&[1.0, 2.0, 3.0, 4.0, 5.0], &[1.0, 2.0]).0.len())
+                    }
                 };
                 alea::sim::clear_budget();
                 continue;
@@ -744,6 +785,56 @@ impl Prop for C19 {
                     }
                 }
             },
+            Func::ShuffleTwo if case.alias_mode == 2 && n >= 2 => {
+                // overlapping windows of one buffer: pairs are (s[j], s[j + k])
+                st.inc("call.shuffle_two_overlapping");
+                let k = 1 + (case.n_boot % (n - 1).max(1));
+                let sbuf: Vec<f64> = (0..n + k).map(|i| 1000.0 + i as f64).collect();
+                match catch(|| shuffle_two(&sbuf[..n], &sbuf[k..n + k])) {
+                    Err(msg) => {
+                        let class = if is_budget_panic(&msg) { "nontermination" } else { "panic" };
+                        verdict = mk("shuffle_two_paired", class, msg);
+                    }
+                    Ok((x, y)) => {
+                        h.fs(&x);
+                        h.fs(&y);
+                        let mut xs = x.clone();
+                        xs.sort_by(|a, b| a.total_cmp(b));
+                        if x.len() != n || y.len() != n || xs != sbuf[..n] {
+                            verdict = mk("shuffle_two_paired", "not_a_permutation", format!("shuffle_two on overlapping windows: first output is not a permutation of the first window (len {})", n));
+                        } else if let Some(j) = (0..n).find(|j| y[*j] != x[*j] + k as f64) {
+                            verdict = mk("shuffle_two_paired", "unpaired", format!("shuffle_two(&s[..{}], &s[{}..]): output pair {} = ({}, {}) is not an input pair (s[i], s[i+{}])", n, k, j, x[j], y[j], k));
+                        }
+                    }
+                }
+            }
+            Func::ShuffleTwo if case.alias_mode == 3 => {
+                // a separate second array, numerically equal to the first, differing in the sign of zeros
+                st.inc("call.shuffle_two_signed_zero_twin");
+                let mut a1 = data.clone();
+                if n >= 2 {
+                    a1[0] = 0.0;
+                    a1[n / 2] = -0.0;
+                }
+                let a2: Vec<f64> = a1.iter().map(|v| if *v == 0.0 { -*v } else { *v }).collect();
+                match catch(|| shuffle_two(&a1, &a2)) {
+                    Err(msg) => {
+                        let class = if is_budget_panic(&msg) { "nontermination" } else { "panic" };
+                        verdict = mk("shuffle_two_paired", class, msg);
+                    }
+                    Ok((x, y)) => {
+                        h.fs(&x);
+                        h.fs(&y);
+                        let mut want: Vec<(u64, u64)> = a1.iter().zip(&a2).map(|(p, q)| (p.to_bits(), q.to_bits())).collect();
+                        let mut got: Vec<(u64, u64)> = x.iter().zip(&y).map(|(p, q)| (p.to_bits(), q.to_bits())).collect();
+                        want.sort_unstable();
+                        got.sort_unstable();
+                        if want != got {
+                            verdict = mk("shuffle_two_paired", "unpaired", format!("shuffle_two of two numerically equal arrays that differ in the sign of a zero: the output pairs (by bit pattern) are not the input pairs (len {})", n));
+                        }
+                    }
+                }
+            }
             Func::ShuffleTwo if case.alias => {
                 // one array passed twice: both results must be the same permutation of it
                 st.inc("call.shuffle_two_aliased");
@@ -905,6 +996,11 @@ impl Prop for C19 {
             c.alias = false;
             out.push(c);
         }
+        if case.pre_perm {
+            let mut c = case.clone();
+            c.pre_perm = false;
+            out.push(c);
+        }
         for rp in [1usize, case.repeat / 2] {
             if rp >= 1 && rp < case.repeat {
                 let mut c = case.clone();
@@ -959,7 +1055,7 @@ impl Prop for C19 {
             "len.len2-8", "len.len9+", "mode.distinct", "mode.repeated", "mode.special", "mode.special_distinct",
             "seeding.seed_clock", "seeding.seed_small", "seeding.seed_set", "fault.rng_zero",
             "fault.rng_max", "fault.rng_tiny", "fault.rng_half", "fault.rng_streak",
-            "stat.dkw_checked", "stat.coverage_checked", "stat.frequency_checked", "stat.joint_checked", "stat.chi_square_checked", "stat.order_checked", "earlier_calls_on_thread", "earlier_calls_on_same_buffer", "earlier_rejected_request", "other_client_draws_first", "call.shuffle_two_aliased", "fault.rng_pair",
+            "stat.dkw_checked", "stat.coverage_checked", "stat.frequency_checked", "stat.joint_checked", "stat.chi_square_checked", "stat.order_checked", "earlier_calls_on_thread", "earlier_calls_on_same_buffer", "earlier_rejected_request", "other_client_draws_first", "call.shuffle_two_aliased", "call.shuffle_two_overlapping", "call.shuffle_two_signed_zero_twin", "earlier_calls_same_values_other_order", "fault.rng_pair",
         ]
         .iter()
         .map(|s| s.to_string())
